@@ -440,7 +440,11 @@ func (b balancer) Balance(m kafka.Message, parts ...int) int {
 	b.r.mu.Lock()
 	p = b.r.planned[[2]int{c, i}]
 	b.r.mu.Unlock()
-	b.r.rec.Emit(trace.Event{"ev": "balance", "c": c, "i": i, "p": p, "offered": len(parts)})
+	topic := m.Topic
+	if topic == "" {
+		topic = b.r.sc.Cfg.Topic
+	}
+	b.r.rec.Emit(trace.Event{"ev": "balance", "c": c, "i": i, "p": p, "offered": len(parts), "parts": append([]int{}, parts...), "topic": topic})
 	return p
 }
 
